@@ -36,7 +36,9 @@ func (cok *CollationOrderKey[K]) Transform(k K) ([]byte, []byte) {
 	// the sort key lives in cok.buf until the next Transform; whoever keeps it
 	// longer (a leaf, the first bound of a Range) must copy it
 	cok.buf.Reset()
-	return b, cok.c.Key(cok.buf, b)
+	// terminate the sort key: with primary-only collators (e.g. collate.Loose)
+	// it carries no level separator, so one key could be a prefix of another
+	return b, append(cok.c.Key(cok.buf, b), 0, 0)
 }
 func (cok *CollationOrderKey[K]) Restore(b []byte) K { return cok.src }
 
